@@ -38,6 +38,14 @@ Theorem C19_dump_str_pretty_read_reference : forall s a, wf s -> rep s a ->
 Proof. intros s a Hwf Hr. split; [now apply dump_rep | split; [now apply to_str_rep | now apply pretty_rep]]. Qed.
 Print Assumptions C19_dump_str_pretty_read_reference.
 
+(** get_region reads the reference grid over the rectangle after clamping and ordering its corners *)
+Theorem C19_get_region_reads_reference : forall s a rs cs re ce, wf s -> rep s a ->
+  get_region s rs cs re ce =
+    (let '(rs', cs', re', ce') := norm_region s rs cs re ce in
+     map (fun r => map (fun c => ag a (Z.to_nat (clamp r (aR a) - 1)) (Z.to_nat (clamp c (aC a) - 1))) (zrange cs' ce')) (zrange rs' re')).
+Proof. exact get_region_rep. Qed.
+Print Assumptions C19_get_region_reads_reference.
+
 (** cell-level meaning of the two primitives everything is built from *)
 Theorem C19_fill_region_cells : forall s rs cs re ce ch, wf s ->
   let s' := fill_region s rs cs re ce ch in
